@@ -23,6 +23,7 @@ type byzActor struct {
 	props []heardProp
 	done  map[string]bool // one reaction per (slot, height, round, kind)
 	prevotes map[int64][]*types.Vote // honest non-nil prevotes heard, per (recent) height
+	allPrevotes map[int64][]*types.Vote // all honest prevotes heard, per (recent) height
 	style int             // 0 amplify+split, 1 mostly silent, 2 chaotic
 }
 
@@ -96,6 +97,15 @@ func (b *byzActor) observeVote(v *types.Vote) {
 	if len(b.s.heardVotes) < 400 {
 		b.s.heardVotes = append(b.s.heardVotes, v)
 	}
+	if len(b.ids) > 0 && v.Type == types.PrevoteType {
+		if b.allPrevotes == nil {
+			b.allPrevotes = map[int64][]*types.Vote{}
+		}
+		if len(b.allPrevotes[v.Height]) < 300 {
+			b.allPrevotes[v.Height] = append(b.allPrevotes[v.Height], v)
+		}
+		delete(b.allPrevotes, v.Height-2)
+	}
 	if len(b.ids) > 0 && v.Type == types.PrevoteType && !v.BlockID.IsZero() {
 		if b.prevotes == nil {
 			b.prevotes = map[int64][]*types.Vote{}
@@ -104,6 +114,64 @@ func (b *byzActor) observeVote(v *types.Vote) {
 			b.prevotes[v.Height] = append(b.prevotes[v.Height], v)
 		}
 		delete(b.prevotes, v.Height-2)
+	}
+}
+
+// onCommitWait: an honest node has +2/3 precommits for a block it has not received yet (RoundStepCommit,
+// waiting for parts). A byzantine validator relays to it the honest prevotes of a LATER round it has heard
+// (the honest reactor only sends a peer the votes of that peer's own round), topped up with its own.
+func (b *byzActor) onCommitWait(n *node) {
+	if !b.active() || b.style == 1 {
+		return
+	}
+	s := b.s
+	rs := n.cs.GetRoundState()
+	if !b.once("cwait", n.id, rs.Height, rs.Round) {
+		return
+	}
+	var bp int64
+	for _, slot := range b.ids {
+		if _, v := rs.Validators.GetByAddress(s.slots[slot].key.PubKey().Address()); v != nil {
+			bp += v.VotingPower
+		}
+	}
+	best := -1
+	byRound := map[int][]*types.Vote{}
+	pw := map[int]int64{}
+	for _, v := range b.allPrevotes[rs.Height] {
+		if v.Round <= rs.Round {
+			continue
+		}
+		dup := false
+		for _, o := range byRound[v.Round] {
+			if o.ValidatorIndex == v.ValidatorIndex {
+				dup = true
+			}
+		}
+		if dup {
+			continue
+		}
+		if _, val := rs.Validators.GetByIndex(v.ValidatorIndex); val != nil {
+			byRound[v.Round] = append(byRound[v.Round], v)
+			pw[v.Round] += val.VotingPower
+			if 3*(pw[v.Round]+bp) > 2*rs.Validators.TotalVotingPower() && v.Round > best {
+				best = v.Round
+			}
+		}
+	}
+	if best < 0 {
+		return
+	}
+	s.r.Fault("byz_future_round_votes_to_committing_node")
+	s.event("byz relays round-%d prevotes of height %d to n%d, which waits in the commit step of round %d", best, rs.Height, n.id, rs.Round)
+	from := b.ids[0]
+	for _, v := range byRound[best] {
+		s.net.send(from, n, &netMsg{msg: &cons.VoteMessage{Vote: v}, desc: "relay " + voteDesc(v)})
+	}
+	for _, slot := range b.ids {
+		if pv := b.signVote(slot, rs.Validators, types.PrevoteType, rs.Height, best, types.BlockID{}, tmtime.Now()); pv != nil {
+			b.sendVote(slot, n, pv, "")
+		}
 	}
 }
 
